@@ -194,6 +194,8 @@ type MemStore struct {
 	// ClosedInFlight counts requests that were in flight on the store at the moment it was closed.
 	ClosedInFlight int64
 	ReadOnly       bool
+	// Lazy: GetChunk returns chunks in storage form (compressed, unverified) that are decoded on first use.
+	Lazy bool
 }
 
 func NewMemStore(name string) *MemStore {
@@ -361,6 +363,14 @@ func (m *MemStore) GetChunk(id desync.ChunkID) (*desync.Chunk, error) {
 	}
 	tok := atomic.AddInt64(&tokCounter, 1)
 	ch := desync.NewChunk(b)
+	if m.Lazy {
+		// what a compressed store opened without verification hands out: the storage form, decoded on first use
+		if z, err := desync.Compress(b); err == nil {
+			if lc, err := desync.NewChunkFromStorage(id, z, desync.Converters{desync.Compressor{}}, true); err == nil {
+				ch = lc
+			}
+		}
+	}
 	m.end2("get", id, n, t0, "ok", tok, nil, ch)
 	return ch, nil
 }
